@@ -483,6 +483,23 @@ func TestC14(t *testing.T) {
 				}
 			}
 		}
+		// very large single writes (tens of MiB: a long recording encoded in
+		// one go), first shard only
+		if hx.FirstShard() {
+			huge := []int{1<<24 - 1, 1 << 24, 1<<24 + 1, 1<<26 + 7}
+			if hx.Thorough() {
+				huge = append(huge, 1<<23, 1<<25+1, 3<<24, 1<<27, 1<<28+3)
+			}
+			for _, n := range huge {
+				c := bigCase{Seed: uint64(n), Len: n, Cuts: []int{n / 3, n - 8193}}
+				nbig++
+				rec.Class("single write of 16 MiB or more", 1)
+				if msg, ok := checkBigCase(c); !ok {
+					rec.Fail("large-writes", "", msg, c)
+					break
+				}
+			}
+		}
 		rec.Eval("large-writes", nbig)
 		bigCases, bigFailed := 0, false
 		hx.RapidCheck(t, rec, "large-writes", func(rt *rapid.T, fail func(string, string, any)) {
